@@ -404,6 +404,8 @@ int __wrap_sem_clockwait(sem_t* s, clockid_t, const struct timespec* ts) { if (!
 int __wrap_clock_gettime(clockid_t id, struct timespec* ts) {
   if (!g_active || tl_id < 0 || !isTimeClock(id)) return __real_clock_gettime(id, ts);
   vclock += 1000;  // reading the clock takes a microsecond of virtual time (busy waits on the clock make progress)
+  // now and then the reading falls exactly on a whole millisecond (deadline arithmetic has its boundary cases where the nanoseconds are round)
+  if (chance1000(125)) vclock += (1000000LL - vclock % 1000000LL) % 1000000LL;
   long long t = vclock;
   // the _COARSE clocks stand still between two timer ticks (4 ms): they lag behind the precise clocks by up to a tick
   if (id == CLOCK_REALTIME_COARSE || id == CLOCK_MONOTONIC_COARSE) t -= t % 4000000LL;
@@ -490,7 +492,7 @@ static int semWait(sem_t* s, const struct timespec* abs) {
   yieldPoint();
   for (;;) {
     if (ss->count > 0) { --ss->count; progress(); return 0; }
-    if (abs && chance1000(cfg.eintrPercent)) { ++st.eintr; errno = EINTR; return -1; }
+    if (chance1000(cfg.eintrPercent)) { ++st.eintr; errno = EINTR; return -1; }   // (a signal handler may interrupt the untimed sem_wait as well)
     th[me].state = T_BLOCKED; th[me].wait = W_SEM; th[me].obj = s; th[me].timedOut = false; th[me].deadline = abs ? toNs(abs) : -1;
     if (abs && th[me].deadline <= vclock) { th[me].state = T_RUNNABLE; th[me].timedOut = true; }
     else blockHere();
